@@ -198,6 +198,10 @@ def run_spec(spec, ctx):
     if unsupported and status == "pass":
         status = "inconclusive"
         detail = "unsupported MIR construct: " + unsupported[0]
+    if status == "pass" and obligations == 0:
+        # vacuity guard: a spec that reaches no obligation has shown nothing
+        status = "inconclusive"
+        detail = "no proof obligation was reached (vacuous run)"
     fl = []
     if findings:
         # a finding is reported even when the run is otherwise inconclusive: the driver replays it natively and
